@@ -688,6 +688,131 @@ fn case_forgotten_guard(n: usize, variant: u32) -> (u64, Vec<String>) {
 	c.finish()
 }
 
+/// Locks that have been KILLED (`RawLock::poison`, which is what happens when one of their raw
+/// operations panics) are consumed / dropped inside every kind of container: the values must still
+/// come back at their positions and every token is dropped exactly once.  Nothing here locks.
+fn case_killed(n: usize, variant: u32) -> (u64, Vec<String>) {
+	use happylock::lockable::RawLock;
+	let mut c = Case::new(&format!("killed member n={n} variant={variant}"));
+	let kill = (variant as usize / 8) % n.max(1);
+	let mut data = c.ms(n);
+	let ids = ids_of_m(&mut data);
+	for m in data.iter_mut() {
+		let t = m.get_mut();
+		t.val = written(t.id, 1);
+	}
+	if n > 0 {
+		data[kill].poison();
+	}
+	match variant % 8 {
+		0 => {
+			let col = BoxedLockCollection::new(data);
+			let inner = col.into_inner();
+			for (t, id) in inner.iter().zip(&ids) {
+				c.expect(t, *id, 1, "Boxed<Vec>::into_inner with a killed member");
+			}
+			if inner.len() != n {
+				c.err("arity", format!("into_inner returned {} values", inner.len()));
+			}
+		}
+		1 => {
+			let col = OwnedLockCollection::new(data.into_boxed_slice());
+			let inner = col.into_inner();
+			for (t, id) in inner.iter().zip(&ids) {
+				c.expect(t, *id, 1, "Owned<Box<[T]>>::into_inner with a killed member");
+			}
+		}
+		2 => {
+			let col = RetryingLockCollection::new(data);
+			let child = col.into_child();
+			for (m, id) in child.into_iter().zip(&ids) {
+				let t = m.into_inner();
+				c.expect(&t, *id, 1, "Retrying::into_child + Mutex::into_inner of a killed lock");
+			}
+		}
+		3 => {
+			if n == 3 {
+				let mut it = data.into_iter();
+				let arr = [it.next().unwrap(), it.next().unwrap(), it.next().unwrap()];
+				let col = OwnedLockCollection::new(arr);
+				let inner = col.into_inner();
+				for (t, id) in inner.iter().zip(&ids) {
+					c.expect(t, *id, 1, "Owned<[T; 3]>::into_inner with a killed member");
+				}
+			} else if n == 2 {
+				let mut it = data.into_iter();
+				let r = c.r();
+				let rid = r.read(key()).id;
+				r.poison();
+				let tup = (it.next().unwrap(), r, it.next().unwrap());
+				let col = BoxedLockCollection::new(tup);
+				let (a, b, d) = col.into_inner();
+				c.expect(&a, ids[0], 1, "Boxed<(M,R,M)>::into_inner .0");
+				if b.id != rid {
+					c.err("wrong_position", format!("tuple .1 is token {}", b.id));
+				}
+				c.expect(&d, ids[1], 1, "Boxed<(M,R,M)>::into_inner .2");
+			} else {
+				drop(data);
+			}
+		}
+		4 => {
+			// get_mut / child_mut / iter_mut reach the values of killed locks without locking
+			let mut col = RetryingLockCollection::new(data);
+			for (t, id) in col.get_mut().into_vec().into_iter().zip(&ids) {
+				c.expect(t, *id, 1, "Retrying::get_mut with a killed member");
+				t.val = written(*id, 2);
+			}
+			for (t, id) in col.into_inner().iter().zip(&ids) {
+				c.expect(t, *id, 2, "Retrying::into_inner after get_mut, killed member");
+			}
+		}
+		5 => {
+			// Poisonable over a killed lock
+			let mut ps: Vec<Poisonable<TM>> = data.into_iter().map(Poisonable::new).collect();
+			for (p, id) in ps.iter_mut().zip(&ids) {
+				match p.get_mut() {
+					Ok(t) => c.expect(t, *id, 1, "Poisonable::get_mut over a killed lock"),
+					Err(_) => c.err("spuriously_poisoned", "Poisonable over a killed (not poisoned) lock reports poisoned".into()),
+				}
+			}
+			for (p, id) in ps.into_iter().zip(&ids) {
+				match p.into_inner() {
+					Ok(t) => c.expect(&t, *id, 1, "Poisonable::into_inner over a killed lock"),
+					Err(e) => c.expect(&e.into_inner(), *id, 1, "Poisonable::into_inner (Err) over a killed lock"),
+				}
+			}
+		}
+		6 => {
+			// plain drop of a collection with a killed member; and of one dropped by an unwind
+			let col = BoxedLockCollection::new(data);
+			let r = catch_unwind(AssertUnwindSafe(move || {
+				let _c = col;
+				std::panic::resume_unwind(Box::new(7u8));
+			}));
+			let _ = r;
+		}
+		_ => {
+			// rwlocks
+			let mut rs = c.rs(n);
+			let rids = ids_of_r(&mut rs);
+			for r in rs.iter_mut() {
+				let t = r.get_mut();
+				t.val = written(t.id, 1);
+			}
+			if n > 0 {
+				rs[kill].poison();
+			}
+			let col = OwnedLockCollection::new(rs);
+			for (t, id) in col.into_inner().iter().zip(&rids) {
+				c.expect(t, *id, 1, "Owned<Vec<RwLock>>::into_inner with a killed member");
+			}
+			drop(data);
+		}
+	}
+	c.finish()
+}
+
 fn signature(e: &str) -> (String, String) {
 	let rule = e.split('|').next().unwrap_or("drop").to_string();
 	(rule.clone(), format!("C16:{rule}"))
@@ -715,6 +840,11 @@ pub fn run(cfg: &RunCfg) -> Report {
 		for variant in 0..=6u32 {
 			cases.push((2, 0, variant));
 		}
+		for n in 1..=4usize {
+			for variant in 0..(8 * n as u32) {
+				cases.push((4, n, variant));
+			}
+		}
 	}
 	if cfg.miri || cfg.leakcheck {
 		// one pass is plenty under the interpreter / valgrind
@@ -727,6 +857,7 @@ pub fn run(cfg: &RunCfg) -> Report {
 			0 => case_vec_kinds(n, variant),
 			1 => case_arrays(n),
 			2 => case_tuples(variant),
+			4 => case_killed(n, variant),
 			_ => case_forgotten_guard(n, variant),
 		};
 		let r = if kind == 3 {
@@ -781,6 +912,6 @@ pub fn run(cfg: &RunCfg) -> Report {
 			}
 		}
 	});
-	rep.rule = "drop-counting tokens (unique id per construction, table id -> drops) through every construction/destruction path: Vec / Box<[T]> / [T; 0..4] / tuples of arity 1, 3, 4, 7 / nested collections / &mut containers x boxed, ref, owned, retrying collections x {new, new_ref, try_new accept and reject (owned values next to a duplicate reference), from, from_iter, default, extend, into_child, into_inner, into_iter fully and partially consumed, child_mut replacement, get_mut, plain drop, drop by an unwind (panic in the owning frame / in a scoped closure / under a guard), drop after a guard was forgotten, Poisonable into_inner/into_child Ok and poisoned}; values are written under a lock (guard and scoped) first and must come back at their declared positions with the last written value; every token must be dropped exactly once; distinct = distinct (path, size) cases".into();
+	rep.rule = "drop-counting tokens (unique id per construction, table id -> drops) through every construction/destruction path: Vec / Box<[T]> / [T; 0..4] / tuples of arity 1, 3, 4, 7 / nested collections / &mut containers x boxed, ref, owned, retrying collections x {new, new_ref, try_new accept and reject (owned values next to a duplicate reference), from, from_iter, default, extend, into_child, into_inner, into_iter fully and partially consumed, child_mut replacement, get_mut, plain drop, drop by an unwind (panic in the owning frame / in a scoped closure / under a guard), drop after a guard was forgotten, Poisonable into_inner/into_child Ok and poisoned, and into_inner / into_child / get_mut / drop of containers one of whose locks has been KILLED (RawLock::poison) at every position}; values are written under a lock (guard and scoped) first and must come back at their declared positions with the last written value; every token must be dropped exactly once; distinct = distinct (path, size) cases".into();
 	rep
 }
